@@ -175,6 +175,8 @@ def check_step(world, step, info=None):
     real_pool = depccg.parsing.Pool
     if step.get('schedule') == 'reversed':
         depccg.parsing.Pool = ReversingPool
+    elif step.get('schedule') == 'sync':
+        depccg.parsing.Pool = native.PicklingSyncPool
     try:
         if single_form:
             res = depccg.parsing.run(docs[0], scores[0], cats, roots, world.grammar.binary, world.grammar.unary, **cfg)
@@ -291,16 +293,19 @@ def build_step(data, world, allow_mp):
     size = t.weighted([(2, 1), (2, 2), (3, 3), (3, 4), (2, 6), (1, 8)])
     idxs = [t.below(npool) for _ in range(size)]
     mcs = t.pick([20, 20, 1, 2, 3, 5])
-    if not allow_mp:
-        mcs = max(mcs, len(idxs))
     step = {'kind': kind, 'batch': idxs, 'processes': t.int(1, 4), 'max_chunk_size': mcs}
+    if not allow_mp and len(idxs) > mcs:
+        # the budget of real worker pools (1 s each) is used up: the multi-process branch is served in-process by
+        # a pool that pickles arguments and results; it costs nothing, so any number of processes can be asked for
+        step['schedule'] = 'sync'
+        step['processes'] = t.pick([1, 2, 3, 4, 5, 7, 8, 11, 13, 16])
     if kind == 'malformed':
         step['defect'] = t.pick(['tag-columns', 'tag-rows', 'dep-shape', 'length-mismatch', 'list-vs-single', 'token-count'])
         step['last'] = t.chance(180)
         step['max_chunk_size'] = max(mcs, len(idxs) + 1)
         return step
     step['single_form'] = t.chance(128)
-    if len(idxs) > step['max_chunk_size'] and t.chance(150):
+    if len(idxs) > step['max_chunk_size'] and step.get('schedule') is None and t.chance(150):
         step['schedule'] = 'reversed'
         step['processes'] = max(2, step['processes'])
     if t.chance(90):
@@ -415,8 +420,53 @@ def check_long(case, info=None):
     return fails
 
 
+# ---- chunking sweep: batch size x process count, through the multi-process branch served in-process
+
+@runner.guarded(PROPERTY)
+def check_chunking(n, processes):
+    """n one-word sentences (each its own word, a one-category grammar) with max_chunk_size 1: the call takes the
+    multi-process branch for every n >= 2; one result list per sentence, in order"""
+    import numpy as np
+    import depccg.parsing
+    from depccg.cat import Category
+    from depccg.types import ScoringResult, Token
+    cat = Category.parse('A')
+    docs = [[Token.of_word(f'w{k}')] for k in range(n)]
+    scores = [ScoringResult(np.zeros((1, 1), dtype=np.float32), np.zeros((1, 2), dtype=np.float32)) for _ in range(n)]
+    real_pool = depccg.parsing.Pool
+    depccg.parsing.Pool = native.PicklingSyncPool
+    try:
+        res = depccg.parsing.run(docs, scores, [cat], [cat], _no_rules, _no_rules1, processes=processes,
+                                 max_chunk_size=1, unary_penalty=0.125, beta=0.00001, use_beta=False, pruning_size=5,
+                                 nbest=1, max_step=1000, max_length=250)
+    except Exception as ex:
+        return [(f'{PROPERTY}/chunking/raises/{type(ex).__name__}', f'{n} sentences, processes={processes}: '
+                 f'{type(ex).__name__}: {ex}')]
+    finally:
+        depccg.parsing.Pool = real_pool
+    if not isinstance(res, list) or len(res) != n:
+        return [(f'{PROPERTY}/chunking/result-count', f'{n} sentences, processes={processes}: '
+                 f'{len(res) if isinstance(res, list) else res!r} result lists')]
+    words = [r[0].tree.leaves[0].token.get('word') if len(r) == 1 else None for r in res]
+    if words != [f'w{k}' for k in range(n)]:
+        bad = next(k for k in range(n) if words[k] != f'w{k}')
+        return [(f'{PROPERTY}/chunking/misaligned', f'{n} sentences, processes={processes}: position {bad} holds the '
+                 f'result of {words[bad]!r}')]
+    return []
+
+
+def _no_rules(x, y):
+    return []
+
+
+def _no_rules1(x):
+    return []
+
+
 def replay(case):
     native.setup()
+    if case.get('mode') == 'chunking':
+        return check_chunking(case['n'], case['processes'])
     if case.get('mode') == 'long':
         return check_long(case)
     world = World(case['init'])
@@ -428,6 +478,18 @@ def replay(case):
 
 def _shard(ctx, shard, nshards):
     native.setup()
+    n_long = ctx.scale(1, 2)
+    if shard < nshards - n_long:
+        # every (batch size, process count) pair up to the bounds, dealt over the ordinary shards
+        k = 0
+        for n in range(2, ctx.scale(72, 260) + 1):
+            for p in list(range(1, 18)) + [24, 32, 64]:
+                k += 1
+                if k % (nshards - n_long) != shard:
+                    continue
+                fails = check_chunking(n, p)
+                ctx.case(['chunking', n, p], n > p > 1 and n % p != 0, cls='chunking-sweep')
+                ctx.report_direct(fails, {'mode': 'chunking', 'n': n, 'processes': p})
     if shard >= nshards - ctx.scale(1, 2):
         case = long_case(ctx.seed * 16 + shard, ctx.quick)
         info = {}
@@ -459,7 +521,7 @@ def _shard(ctx, shard, nshards):
                 return
             allow_mp = mp_budget[0] > 0
             stp = build_step(data, self.world, allow_mp)
-            if stp['kind'] == 'batch' and len(stp['batch']) > stp['max_chunk_size']:
+            if stp['kind'] == 'batch' and len(stp['batch']) > stp['max_chunk_size'] and stp.get('schedule') != 'sync':
                 mp_budget[0] -= 1
                 ctx.notes['multi_process_calls'] = ctx.notes.get('multi_process_calls', 0) + 1
             self.steps.append(stp)
@@ -470,6 +532,7 @@ def _shard(ctx, shard, nshards):
             cls = stp['kind'] + ('/' + stp['defect'] if stp['kind'] == 'malformed' else
                                  ('/chunked-multiprocess' if info.get('chunked') else '')
                                  + ('/reversed-completion-order' if stp.get('schedule') == 'reversed' else '')
+                                 + ('/in-process-pickling-pool' if stp.get('schedule') == 'sync' and info.get('chunked') else '')
                                  + ('/budget' if info.get('budget') else '')
                                  + ('/single-form' if stp.get('single_form') and len(stp['batch']) == 1 else '')
                                  + ('/mixed-failures' if 0 < info.get('nfail', 0) < info.get('size', 0) else ''))
